@@ -16,7 +16,7 @@ func init() {
 		ID:    "C17",
 		Level: "exploration",
 		Rule: "a case is one begin-sorted chunk list x every provided strategy (Identity, Adjacent, Squash, Compressor(n) for each threshold); the oracle is interval arithmetic on File<<16|Block written independently of the library. " +
-			"Enumerated cases: every begin-sorted list of length <= L (quick 3, thorough 5) over the 21 chunks with Begin<=End on offsets {0,1,2}x{0,1}, thresholds {0,1,2} (complete enumeration of that space; includes empty, nested, touching, duplicate and zero-length chunks). Random cases: lists up to 200 chunks, files up to 2^47 (and lists straddling 2^40..2^47), thresholds {-1,0,1,65536,2^32,2^44,2^47,2^48-1,2^48,2^62}. " +
+			"Enumerated cases: every begin-sorted list of length <= L (quick 3, thorough 5) over the 21 chunks with Begin<=End on offsets {0,1,2}x{0,1}, thresholds {-2,-1,0,1,2} (complete enumeration of that space; includes empty, nested, touching, duplicate and zero-length chunks). Random cases: lists up to 200 chunks, files up to 2^47 (and lists straddling 2^40..2^47), thresholds {-1,0,1,65536,2^32,2^44,2^47,2^48-1,2^48,2^62}. " +
 			"A list is non-trivial when it has >= 2 chunks of which two overlap, touch or nest; distinct = distinct lists.",
 		Floor:       map[string]int{"quick": 3000, "thorough": 300000},
 		Plan:        c17Plan,
@@ -237,7 +237,7 @@ func c17Run(c core.Case) *core.Result {
 				alpha = append(alpha, bgzf.Chunk{Begin: offs[i], End: offs[j]})
 			}
 		}
-		strats := mkStrats([]int64{0, 1, 2})
+		strats := mkStrats([]int64{0, 1, 2, -1, -2})
 		L := c.Int("L")
 		var lists, nt int64
 		first := c.Int("first")
